@@ -34,7 +34,7 @@ WellFormedProblem(e) ==
   /\ \A i \in 1..e.n : /\ SeqSet(e.pred[i]) \subseteq 1..e.n /\ SeqSet(e.succ[i]) \subseteq 1..e.n
                        /\ Len(e.tab[i]) = Cardinality(Elems(e.lat)) + 1
                        /\ SeqSet(e.tab[i]) \subseteq Elems(e.lat)
-  /\ e.force \in BOOLEAN /\ e.budget >= -1
+  /\ e.force \in BOOLEAN /\ e.budget >= -1 /\ e.cap > 0
 
 \* the returned map as a total map with None; malformed (unknown location, duplicate, not a
 \* lattice element) gives a map that nothing accepts
@@ -89,7 +89,10 @@ TransEv(e) ==
 
 ResultEv(e) ==
   \* (bound variables hold values: each of the two is evaluated once)
-  \E mono \in {P.start # 0 /\ Monotone(P)} : \E verdict \in {JudgeM(P, P.budget, nt, Outcome(e.res), mono)} :
+  \E mono \in {P.start # 0 /\ Monotone(P)} :
+  \E verdict \in { IF Has(e.res, "err") /\ e.res.err = "Diverged" /\ P.cap <= 2 * Bound(P)
+                    THEN "the recorder's cap on trans calls is too small for this problem (recorder)"
+                    ELSE JudgeM(P, P.budget, nt, Outcome(e.res), mono) } :
     /\ Stat(e, mono, verdict)
     /\ UNCHANGED <<g, s, nt, drift, rv>>
     /\ IF verdict = "" THEN UNCHANGED skip
